@@ -17,7 +17,9 @@ import ast
 from ..core import norm
 from ..intervals import Bounds, le, show
 from ..kinds import Engine
-from .common import known
+from ..cfg import CFG
+from ..facts import split_test
+from .common import known, bounds_summaries, resolve_static_call
 
 P = "C15"
 EXPLANATION = __doc__
@@ -44,7 +46,7 @@ def run(ctx):
     engine = Engine(model)
     for qual in ANCHORS:
         m = model.method(P, *qual)
-        b = Bounds(m.node)
+        b = Bounds(m.node, summaries=bounds_summaries(model, m))
         g = b.g
         for node in g.nodes:
             a = node.ast
@@ -123,20 +125,123 @@ def run(ctx):
               expr="delete_at index", site="FuncDeleteAt.execute: lst.deleteAt(<index argument>)")
 
     # ---------------------------------------------------------------- normalisation exactly once
-    for qual, var, seq in ((("NodeDeref", "evaluate"), "i", None), (("NodeDerefAssign", "evaluate"), "i", None)):
+    n_sites = 0
+    for qual in (("NodeDeref", "evaluate"), ("NodeDerefAssign", "evaluate")):
         m = model.method(P, *qual)
-        norms = [n for n in ast.walk(m.node) if isinstance(n, ast.If) and norm(n.test) == f"{var} < 0"
-                 and len(n.body) == 1 and isinstance(n.body[0], (ast.Assign, ast.AugAssign))]
-        checks = [n for n in ast.walk(m.node) if isinstance(n, ast.If) and norm(n.test).startswith(f"{var} < 0 or {var} >= len(")
-                  and isinstance(n.body[0], ast.Raise)]
-        ok = len(norms) == 2 and len(checks) == 2 and all(
-            norm(x.body[0]) in (f"{var} = {var} + len(s)", f"{var} = {var} + len(lst)", f"{var} += len(s)", f"{var} += len(lst)")
-            for x in norms)
-        ctx.check("C15.normal", m, None, ok,
-                  f"{m.qual}: negative indices are not normalised by adding the length once and then range-checked "
-                  f"with a runtime error", expr="normalise + range check",
-                  site=f"{m.qual}: i < 0 -> i + len once; then 0 <= i < len or runtime error")
-        for c in checks:
-            ctx.check("C15.normal", m, c, "CklRuntimeError" in norm(c.body[0].exc),
-                      "out-of-range index does not raise the language's runtime error",
-                      site=f"{m.qual}: out of range -> CklRuntimeError")
+        states, g = _normal_states(model, m, ctx)
+        tracked = {v for stt in states.values() for v, t in stt}
+        for node in g.nodes:
+            a = node.ast if node.kind != "for" else None
+            if a is None or node.id not in states:
+                continue
+            for x in ast.walk(a):
+                if not (isinstance(x, ast.Subscript) and norm(x.value) in SEQS):
+                    continue
+                for nm in sorted({n.id for n in ast.walk(x.slice) if isinstance(n, ast.Name)} & tracked):
+                    st = {tag for v, tag in states[node.id] if v == nm}
+                    n_sites += 1
+                    ctx.check("C15.normal", m, x, st == {"checked"},
+                              f"{m.qual}: the index `{nm}` of {norm(x)} does not arrive as 'program index, "
+                              f"length added exactly once if negative, then range-checked with a runtime error' "
+                              f"(it arrives as {sorted(st) or ['unknown']})",
+                              expr=f"normalise + range check {norm(x)}",
+                              site=f"{m.qual}: {norm(x)}: i < 0 -> i + len once; then 0 <= i < len or runtime error")
+    if n_sites < 4:
+        ctx.broken("NodeDeref/NodeDerefAssign", f"only {n_sites} element accesses by index variable found")
+
+
+_HELPER_CACHE = {}
+
+
+def _normal_states(model, m, ctx, is_helper=False):
+    """Typestate of index variables: raw (program integer) -> neg (tested negative) -> norm (length added, or was
+    non-negative) -> checked (range test passed).  Anything else is a named bad state."""
+    g = CFG(m.node, implicit_exc=False)
+
+    def assigned_name(a):
+        if isinstance(a, ast.Assign) and len(a.targets) == 1 and isinstance(a.targets[0], ast.Name):
+            return a.targets[0].id, a.value
+        return None, None
+
+    def transfer(node, label, state):
+        a = node.ast
+        st = set(state)
+        if node.kind in ("stmt",):
+            v, val = assigned_name(a)
+            if v is not None:
+                cur = {t for (x, t) in st if x == v}
+                st = {(x, t) for (x, t) in st if x != v}
+                txt = norm(val)
+                if isinstance(val, ast.BinOp) and isinstance(val.op, ast.Add) and v in (norm(val.left), norm(val.right)):
+                    for t in cur:
+                        st.add((v, {"neg": "norm", "norm": "added twice", "checked": "added after the check",
+                                    "raw": "added unconditionally"}.get(t, t)))
+                elif ".asInt().value" in txt or txt.endswith(".value") and "getInt(" in txt:
+                    st.add((v, "raw"))
+                elif isinstance(val, ast.Call) and _helper_checked(model, m, val, ctx):
+                    st.add((v, "checked"))
+                return frozenset(st)
+            if isinstance(a, ast.AugAssign) and isinstance(a.target, ast.Name):
+                v = a.target.id
+                cur = {t for (x, t) in st if x == v}
+                st = {(x, t) for (x, t) in st if x != v}
+                if isinstance(a.op, ast.Add):
+                    for t in cur:
+                        st.add((v, {"neg": "norm", "norm": "added twice", "checked": "added after the check",
+                                    "raw": "added unconditionally"}.get(t, t)))
+                return frozenset(st)
+            return state
+        if node.kind == "test" and label in ("true", "false"):
+            facts = split_test(a, label == "true")
+            for (v, t) in list(st):
+                neg = (f"{v} < 0", True) in facts
+                nonneg = (f"{v} < 0", False) in facts or (f"{v} >= 0", True) in facts
+                upper = any(txt.startswith(f"{v} >= ") and not pol or txt.startswith(f"{v} < ") and pol and txt != f"{v} < 0"
+                            for txt, pol in facts)
+                if t == "raw" and neg:
+                    st.discard((v, t)); st.add((v, "neg"))
+                elif t == "raw" and nonneg and upper:
+                    st.discard((v, t)); st.add((v, "range-checked without normalisation"))
+                elif t == "raw" and nonneg:
+                    st.discard((v, t)); st.add((v, "norm"))
+                elif t == "norm" and nonneg and upper:
+                    st.discard((v, t)); st.add((v, "checked"))
+            return frozenset(st)
+        return state
+
+    states = g.dataflow(frozenset(), transfer, lambda x, y: x | y)
+    # the failing side of the range test raises the language's runtime error
+    for node in g.nodes:
+        if node.kind != "test" or node.id not in states:
+            continue
+        for (v, t) in states[node.id]:
+            if t != "norm":
+                continue
+            facts_f = split_test(node.ast, False)
+            if (f"{v} < 0", False) in facts_f and any(txt.startswith(f"{v} >= ") for txt, pol in facts_f if not pol):
+                tgt = [s for lbl, s in node.succ if lbl == "true"]
+                body = tgt[0].ast if tgt else None
+                ok = isinstance(body, ast.Raise) and body.exc is not None and "CklRuntimeError" in norm(body.exc)
+                ctx.check("C15.normal", m, node.ast, ok,
+                          "out-of-range index does not raise the language's runtime error",
+                          site=f"{m.qual}: out of range -> CklRuntimeError")
+    return states, g
+
+
+def _helper_checked(model, m, call, ctx):
+    """`v = helper(..)`: the helper returns an index that went raw -> norm -> checked on every returning path."""
+    callee = resolve_static_call(model, m, call)
+    if callee is None or callee is m:
+        return False
+    if callee.qual in _HELPER_CACHE:
+        return _HELPER_CACHE[callee.qual]
+    _HELPER_CACHE[callee.qual] = False
+    states, g = _normal_states(model, callee, ctx, True)
+    rets = [n for n in g.nodes if n.kind == "return" and n.id in states]
+    ok = bool(rets)
+    for r in rets:
+        v = r.ast.value
+        if not isinstance(v, ast.Name) or {t for x, t in states[r.id] if x == v.id} != {"checked"}:
+            ok = False
+    _HELPER_CACHE[callee.qual] = ok
+    return ok
